@@ -127,6 +127,7 @@ VecVals(vs) ==
   CASE vs = "num2" -> {P(<<P(0), P(2)>>), V(<<P(-2), P(1)>>, CA), V(<<P(3), P(3)>>, CB)}
     [] vs = "num3" -> {P(<<P(0), P(2), P(1)>>), V(<<P(-2), P(1), P(4)>>, CA), V(<<P(3), P(3), P(-1)>>, CB)}
     [] vs = "pair2" -> {P(<<V(1, CA), V(5, CA)>>), P(<<V(2, CB), V(6, CA)>>), V(<<V(3, CA), V(7, CB)>>, CN)}
+    [] vs = "pair3" -> {P(<<V(1, CA), V(5, CA), P(0)>>), V(<<V(2, CB), V(6, E), V(1, CA)>>, CA), P(<<V(3, CA), P(7), P(2)>>)}
     [] vs = "mixed3" -> {P(<<P(1), P(2), P(3)>>), V(<<V(4, CA), V(0, CB), P(-1)>>, CB), V(<<P(2), P(2), P(2)>>, CA)}
 Pad == [pad |-> TRUE]      \* None: padding of the shorter components (zip_longest)
 HistVals == {P(0), V(1, CA), P(-1), V(3, CB)}
@@ -190,9 +191,9 @@ AllKinds == {Count0, Count2, Sum0, Sum5, DSumK,
 \* thorough tier only
 MoreKinds == {VecOf(<<Sum0, Store(FALSE)>>, "list", "tuple", "num2"),
               VecOf(<<Store(FALSE), Store(TRUE)>>, "list", "tuple", "pair2"),
-              VecOf(<<GroupByK("a"), GroupByK("all"), Count2>>, "list", "tuple", "mixed3a"),
+              VecOf(<<GroupByK("a"), GroupByK("all"), Count2>>, "list", "tuple", "pair3"),
               VecOf(<<VMC(TRUE, FALSE), Sum0>>, "list", "tuple", "num2"),
-              VecOf(<<MeanK("py", TRUE), MeanK("py", TRUE), Store(FALSE)>>, "dim3", "tuple", "num3"),
+              VecOf(<<MeanK("py", TRUE), MeanK("py", TRUE), MeanK("py", TRUE)>>, "dim", "tuple", "num3"),
               MeanK("Sum", TRUE), MeanK("Sum2", FALSE), VMCg(FALSE, TRUE, TRUE),
               GraphI(2, FALSE, <<<<1, 7>>, <<0, 3>>>>, CS)}
 ThoroughKinds == AllKinds \cup MoreKinds
@@ -204,7 +205,6 @@ FreshKind(k) == CASE k.t = "Count" -> [k EXCEPT !.start = 0]
                   [] k.t = "Graph" -> [k EXCEPT !.ipts = <<>>, !.ictx = E]
                   [] OTHER -> k
 HasReset(k) == ~(k.t = "Mean" /\ k.inner = "Sum2")
-MeanPoly(k) == k.inner = "DSum"
 
 (***************************************************************************)
 (* Operational part.                                                       *)
@@ -407,7 +407,8 @@ OwnKeys(k) == CASE k.t = "Count" -> {k.name} [] k.t = "Graph" -> {"scale", "dim"
 ContextOfLast ==
   (op = "compute" /\ res.ok /\ ekind.t \notin {"Store", "GroupBy"}) =>
      \A j \in 1..Len(res.out) :
-        LET lc == LastCtx(FillsOf(since)) IN
+        LET fs == FillsOf(since)
+            lc == IF fs = <<>> /\ ekind.t = "Graph" THEN ekind.ictx ELSE LastCtx(fs) IN
         /\ Del(res.out[j].c, OwnKeys(ekind)) = Del(lc, OwnKeys(ekind))
         /\ (DOMAIN res.out[j].c) \ (DOMAIN lc) \subseteq OwnKeys(ekind)
 \* a second compute() yields the same and changes nothing
